@@ -1,6 +1,143 @@
-/-! line-protocol handlers (stub: filled in when the suite is built) -/
-namespace Apko.Driver.Authentic
+import Apko.Model.Authentic
+/-!
+line-protocol handlers for corr:authentic (C05)
 
-def handle (_args : List String) : Option String := none
+Byte strings are tokens (`[id]`); the library functions are tables carried by the request:
+  H  = `id:sha1:sha256,…`            digests of every token (lower-case hex text, as Go computed them)
+  C  = `id:<hex .PKGINFO>,…`          control tokens whose .PKGINFO can be read
+  D  = `id:entry|entry…,…`            data tokens that gunzip+untar; entry = `<hexname>.<kind>.<bodyid>.<rec>`,
+                                      kind r|s|d|h|o, rec `-` absent, `!` malformed, else the digest text
+  OPS = op;op;…   op = `<l|b>@<0|1>@pkg+pkg…`   pkg = `<hexkey>.<exp>.<fetched>`,
+                                      exp `!` undecodable, `~<digest>` bare base64 (no `Q1` prefix), else digest text, fetched `-` or `<sig|->:<ctl>:<dat>`
+Requests: `auth.verdict H C D OPS k`  → Impl verdict of op k, Spec verdict, class
+          `auth.cache   H C D OPS k`  → advertised cache names after op k (Impl only)
+          `auth.class   H C D OPS k`  → `-`, `-`, class (for the byte-level oracle evaluated by the harness)
+          `auth.datahash <hex .PKGINFO>` → `(*APK).datahash`
+-/
+namespace Apko.Driver.Authentic
+open Apko Apko.Authentic
+
+def splitNE (s : String) (sep : String) : List String := if s.isEmpty then [] else s.splitOn sep
+
+def tok (s : String) : Bytes := [s.toNat!]
+
+def parseH (s : String) : List (Nat × Text × Text) :=
+  (splitNE s ",").filterMap fun e =>
+    match e.splitOn ":" with
+    | [i, a, b] => some (i.toNat!, a.toList, b.toList)
+    | _ => none
+
+def parseC (s : String) : List (Nat × Text) :=
+  (splitNE s ",").filterMap fun e =>
+    match e.splitOn ":" with
+    | [i, h] => some (i.toNat!, unhexS h)
+    | _ => none
+
+def parseKind : String → Kind
+  | "r" => .reg | "s" => .symlink | "d" => .dir | "h" => .hardlink | _ => .other
+
+def parseRec : String → Recorded
+  | "-" => .absent | "!" => .malformed | d => .sum d.toList
+
+def parseEntry (s : String) : Option Entry :=
+  match s.splitOn "." with
+  | [n, k, b, r] => some { name := unhexS n, kind := parseKind k, body := tok b, recorded := parseRec r }
+  | _ => none
+
+def parseD (s : String) : List (Nat × List Entry) :=
+  (splitNE s ",").filterMap fun e =>
+    match e.splitOn ":" with
+    | [i, es] => some (i.toNat!, (splitNE es "|").filterMap parseEntry)
+    | _ => none
+
+def idOf (b : Bytes) : Nat := b.headD 0
+
+def mkLib (h : List (Nat × Text × Text)) (c : List (Nat × Text)) (d : List (Nat × List Entry)) : Lib :=
+  { sha1 := fun b => ((h.find? (·.1 = idOf b)).map (·.2.1)).getD "?".toList,
+    sha256 := fun b => ((h.find? (·.1 = idOf b)).map (·.2.2)).getD "?".toList,
+    untarData := fun b => (d.find? (·.1 = idOf b)).map (·.2),
+    pkginfo := fun b => (c.find? (·.1 = idOf b)).map (·.2) }
+
+def parseApk (s : String) : Option Apk :=
+  match s.splitOn ":" with
+  | [sg, c, d] => some { sig := if sg = "-" then none else some (tok sg), control := tok c, data := tok d }
+  | _ => none
+
+def parsePkg (s : String) : Option PkgReq :=
+  match s.splitOn "." with
+  | [k, e, f] => some { key := unhexS k,
+                        expected := if e = "!" then ⟨none, true⟩
+                                    else if e.startsWith "~" then ⟨some (e.toList.drop 1), false⟩
+                                    else ⟨some e.toList, true⟩,
+                        fetched := if f = "-" then none else parseApk f }
+  | _ => none
+
+def parseOp (s : String) : Option Op :=
+  match s.splitOn "@" with
+  | [k, c, ps] => some { kind := if k = "l" then .lock else .build, useCache := c = "1",
+                         pkgs := (splitNE ps "+").filterMap parsePkg }
+  | _ => none
+
+def parseOps (s : String) : List Op := (splitNE s ";").filterMap parseOp
+
+/-- store before op `k` and op `k` itself (the model re-runs the prefix: handlers are stateless) -/
+def before (verify : Bool) (L : Lib) (ops : List Op) (k : Nat) : Store × Option Op :=
+  ((runOps verify L [] (ops.take k)).2, ops[k]?)
+
+def showB (b : Bool) : String := if b then "ok" else "fail"
+
+/-- Spec verdicts of the packages of one op, threading the store the way Impl does -/
+def specVerdicts (L : Lib) (o : Op) : Store → List PkgReq → List String
+  | _, [] => []
+  | s, p :: ps =>
+    let cache := if o.useCache then some (s.cacheOf p.key) else none
+    let v := Spec.pkgVerdict L o.kind p cache
+    let s' := (runPkg Impl.verifies L o.kind o.useCache s p).2
+    v :: specVerdicts L o s' ps
+
+def classOfVerdict : String → String
+  | "control" => "F05a"
+  | "data" => "F05b"
+  | "emptyhash" => "F05c"
+  | _ => "unlisted"
+
+def cacheNames (s : Store) : String :=
+  let names := s.flatMap fun (k, c) =>
+    (c.ctl.map fun (n, _) => hexS k ++ "/" ++ String.ofList n ++ ".ctl") ++
+    (c.sig.map fun (n, _) => hexS k ++ "/" ++ String.ofList n ++ ".sig") ++
+    (c.dat.map fun (n, _) => hexS k ++ "/" ++ String.ofList n ++ ".dat")
+  ",".intercalate (names.mergeSort (fun a b => decide (a ≤ b)))
+
+def handle (args : List String) : Option String :=
+  match args with
+  | ["auth.datahash", info] =>
+    let r := match datahash (unhexS info) with
+      | some v => "ok " ++ hexS v
+      | none => "err"
+    some (r ++ "\t" ++ r ++ "\t-")
+  | [op, h, c, d, ops, k] =>
+    if op != "auth.verdict" && op != "auth.cache" && op != "auth.class" then none else
+    let L := mkLib (parseH h) (parseC c) (parseD d)
+    let ops := parseOps ops
+    match before Impl.verifies L ops k.toNat! with
+    | (_, none) => some "bad-op"
+    | (s, some o) =>
+      let (ok, s') := runOp Impl.verifies L s o
+      let vs := specVerdicts L o s o.pkgs
+      let bad := vs.filter (· != "ok")
+      -- F05c only when an empty datahash is the only complaint (it must never mask another class)
+      let cls := match bad.filter (· != "emptyhash"), bad with
+        | v :: _, _ => classOfVerdict v
+        | [], _ :: _ => "F05c"
+        | [], [] => "-"
+      let spec := bad.isEmpty
+      if op = "auth.verdict" then
+        some (showB ok ++ "\t" ++ showB spec ++ "\t" ++ (if ok = spec then "-" else cls))
+      else if op = "auth.cache" then
+        let n := cacheNames s'
+        some (n ++ "\t" ++ n ++ "\t-")
+      else
+        some ("-\t-\t" ++ cls)
+  | _ => none
 
 end Apko.Driver.Authentic
